@@ -394,20 +394,11 @@ theorem stepTok_bare (dia : Dialect) (s ctx : Str) (line col : Nat) (pol : Polic
       subst hc59
       have hcol : ¬ col + 1 = 1 := by
         simp [semiOk] at hsemi; omega
-      simp only [hs, if_true, hcol, if_false]
-      have hunits' : okUnits dia none r = true := by
-        have := (ok_step dia none 59 r [] hunits trivial 0 0 acceptAll []).2.1
-        simpa [nextPend, isLeadU] using this
-      have hnws' : r.all (fun x => !isWs x) = true := by
-        simp only [List.all_cons, Bool.and_eq_true] at hnws; exact hnws.2
-      have hbr' : dia = .cif2 → r.all (fun x => !(x == 91 || x == 93 || x == 123 || x == 125)) = true := by
-        intro hd; have := hbr2 hd; simp only [List.all_cons, Bool.and_eq_true] at this; exact this.2
-      have hscan := scanUnquoted_ok dia ctx hctx line pol log r none [59] (col + 1) 0 true true hunits' trivial hnws' hbr'
-      simp only [Option.isSome_none] at hscan
+      simp only [hs, if_true, hcol, if_false, Nat.add_sub_cancel]
+      have hscan := scanUnquoted_ok dia ctx hctx line pol log (59 :: r) none [] col 0 true true hunits trivial hnws hbr2
+      simp only [Option.isSome_none, List.cons_append] at hscan
       rw [L.bind_ok hscan]
-      have : (r.reverse ++ [59]).reverse = 59 :: r := by simp
-      simp only [this, finishUnquoted, hcv, L.pure_apply, mkTok, colAdd_cons]
-      simp [isTrailU, Nat.add_assoc]
+      simp [finishUnquoted, hcv, mkTok]
     · simp only [hs, if_false, Nat.add_sub_cancel]
       have hscan := scanUnquoted_ok dia ctx hctx line pol log (c :: r) none [] col 0 true true hunits trivial hnws hbr2
       simp only [Option.isSome_none, List.cons_append] at hscan
